@@ -1333,7 +1333,7 @@ def run(rep):
     plans = ([(2, SEQ_KINDS, ["stream"]), (1, SEQ_KINDS, ["preload", "preload_norel"])] if quick else
              [(4, [k], ["stream"]) for k in SEQ_KINDS] + [(2, SEQ_KINDS, ["preload", "preload_norel"])])
     pins = ([([("cl", "ka"), ("cl", "never")], [["read"]], [["shutdown"]]), ([("eof", "close")], [["read"]], [["release"]]),
-             ([("cl", "ka")], [["read"]], [["close"]])] if quick else
+             ([("cl", "never")], [["read"]], [["close"]])] if quick else
             [([("cl", "ka"), ("cl", "never"), ("cl", "cut"), ("chunked", "ka")], [["read"]], [["shutdown"], ["release"], ["drain"]]),
              ([("eof", "close"), ("cl", "close")], [["read"]], [["shutdown"], ["release"], ["close"]]),
              ([("cl", "ka")], [["read"]], [["close"], ["shutdown", "close"]])])
